@@ -70,28 +70,33 @@ impl Check for C16 {
         "E1 single-node engine: the real datacake-node watch_membership_changes task fed harness-made membership snapshots; subscribers obtained from the real DatacakeHandle::membership_changes at seeded moments, reading with seeded delays and folding joined/left into a set"
     }
     fn rule(&self) -> &'static str {
-        "Cases: 1-7 membership snapshots over node ids {1,2,3,4} (join, leave, rejoin, rejoin on another address) at seeded virtual times, 1-3 subscribers attaching before, between or after snapshots and spending 0-40 virtual ms per handled change. In thorough tier all snapshot sequences of length <= 3 over ids {1,2} x 2 address variants with one subscriber at every attach point x {fast, slow} are enumerated first. Oracle at quiescence (1 s after the last snapshot): each subscriber's folded set (id -> address) equals the last snapshot minus the local node; a monitor that subscribed before the first snapshot and reads at once must have been told `left` with the old address for every disappearance and address change. Non-trivial = >= 2 snapshots that differ. Distinct = hash of (snapshot sequence, subscriber timing)."
+        "Cases: 1-7 membership snapshots over node ids {1,2,3,4} (join, leave, rejoin, rejoin on another address) at seeded virtual times, 1-3 subscribers attaching before, between or after snapshots and spending 0-40 virtual ms per handled change. In thorough tier all snapshot sequences of length <= 3 over ids {1,2} x 2 address variants with one subscriber at every attach point x {fast, slow} are enumerated first. Real-cluster arm (1 case in 127): 2-4 complete nodes (DatacakeNodeBuilder::connect + store extension) under link holds (short, and long enough for the failure detector), crash/restart, moves to another address, clock jumps; a subscriber attached at node start sums every change; once all views stood still for 2 simulated seconds its sum must equal the membership layer's own view minus the node. Oracle at quiescence (1 s after the last snapshot): each subscriber's folded set (id -> address) equals the last snapshot minus the local node; a monitor that subscribed before the first snapshot and reads at once must have been told `left` with the old address for every disappearance and address change. Non-trivial = >= 2 snapshots that differ. Distinct = hash of (snapshot sequence, subscriber timing)."
     }
     fn assumptions(&self) -> Vec<String> {
         vec![
-            "chitchat itself is a stub: snapshots are supplied by the harness through the same watch channel type ChitchatNode uses (its gossip and failure detector read std::time::Instant and thread_rng and cannot run in virtual time)".into(),
+            "E1 cases: chitchat is a stub, snapshots are supplied by the harness through the same watch channel type ChitchatNode uses. Real-cluster arm: the gossip layer is the vendored datacake-chitchat-fork 0.5.1 with three replay patches (tokio's virtual Instant, seeded generators, seed-ordered ready set); membership is judged against what that layer reports, not against which hosts are up".into(),
             "a subscriber is any component using DatacakeHandle::membership_changes(), as the eventual-consistency store does".into(),
         ]
     }
     fn components(&self) -> Vec<(&'static str, &'static str)> {
         vec![
             ("datacake-node watch_membership_changes, MembershipChange watch channel, DatacakeHandle::membership_changes, RpcNetwork, selector actor", "real"),
-            ("chitchat gossip / failure detector", "stub: harness-supplied snapshots"),
+            ("chitchat gossip / failure detector", "stub: harness-supplied snapshots (E1 cases); real-cluster arm (1 case in 127): the vendored fork with virtual time and seeded randomness, ChitchatNode, ChitchatTransport/ChitchatService over the simulated network, DatacakeNodeBuilder::connect"),
         ]
     }
     fn budget(&self, tier: Tier) -> Budget {
         match tier {
-            Tier::Quick => Budget { wall_secs: 40, max_cases: 300_000, checkpoint_every: 256, workers: 16 },
+            Tier::Quick => Budget { wall_secs: 60, max_cases: 300_000, checkpoint_every: 256, workers: 16 },
             Tier::Thorough => Budget { wall_secs: 600, max_cases: 20_000_000, checkpoint_every: 256, workers: 16 },
         }
     }
     fn generate(&self, seed: u64, idx: u64, _tier: Tier) -> Value {
         let mut rng = rng_from(case_seed(seed, idx));
+        // real-cluster arm: complete nodes built with the public API, membership from the real
+        // gossip layer over the simulated network; a subscriber per node sums the changes
+        if arm_split(idx, 127).is_ok() {
+            return serde_json::json!({ "cluster": crate::e2::c01::gen_real_scenario(&mut rng) });
+        }
         let ids = rng.gen_range(1..=4u8);
         let n = rng.gen_range(1..=7);
         let mut events = Vec::new();
@@ -120,7 +125,29 @@ impl Check for C16 {
         }
         serde_json::to_value(Scenario { events, subscribers }).unwrap()
     }
+    fn isolate(&self, scenario: &Value) -> bool {
+        scenario.get("cluster").is_some()
+    }
     fn execute(&self, scenario: &Value) -> Outcome {
+        if let Some(c) = scenario.get("cluster") {
+            let sc: crate::e2::c01::Scenario = match serde_json::from_value(c.clone()) {
+                Ok(s) => s,
+                Err(e) => return Outcome::invalid(format!("bad cluster scenario: {e}")),
+            };
+            return match crate::e2::c01::run_cluster(&sc, "C16") {
+                Ok(mut r) => {
+                    for d in r.membership_diffs.clone() {
+                        r.out.violate("C16/real-cluster/subscriber-sum-differs-from-membership-layer", d);
+                    }
+                    // convergence and the closing exchanges are C01's business
+                    r.out.violations.retain(|v| v.class.starts_with("C16/real-cluster/") || v.class.contains("/panic@"));
+                    r.out.probe("real_cluster_arm_case");
+                    r.out.nontrivial = r.out.faults.values().sum::<u64>() > 0;
+                    r.out
+                },
+                Err(e) => Outcome::invalid(e),
+            };
+        }
         let sc: Scenario = match serde_json::from_value(scenario.clone()) {
             Ok(s) => s,
             Err(e) => return Outcome::invalid(format!("bad scenario: {e}")),
@@ -265,6 +292,9 @@ impl Check for C16 {
         out
     }
     fn shrink(&self, sc: &Value) -> Vec<Value> {
+        if let Some(c) = sc.get("cluster") {
+            return crate::e2::c01::shrink_cluster(c).into_iter().map(|v| serde_json::json!({ "cluster": v })).collect();
+        }
         let mut c = generic_shrink(sc);
         if let Some(subs) = sc["subscribers"].as_array() {
             if subs.len() > 1 {
